@@ -82,6 +82,14 @@ func c01Check(msg any, fresh func() any) (sig string, ref *ttlvref.Node, enc []b
 	if err := safely(func() error { enc = ttlv.MarshalTTLV(msg); return nil }); err != nil {
 		return "encode-panic", ref, nil, err
 	}
+	// encoding the same message again gives the same bytes (the encoder does not modify what it is given)
+	var again []byte
+	if err := safely(func() error { again = ttlv.MarshalTTLV(msg); return nil }); err != nil {
+		return "encode-panic", ref, nil, err
+	}
+	if !bytes.Equal(again, enc) {
+		return "encoder-modifies-message", ref, enc, fmt.Errorf("encoding the same message a second time gives %x, the first time %x", again, enc)
+	}
 	// (1) encoding carries exactly the populated elements
 	parsed, perr := ttlvref.Parse(enc, ttlvref.Strict)
 	if perr != nil {
